@@ -1,7 +1,5 @@
 package parse
 
-import "fmt"
-
 // parseExpr parses an expression.
 //
 // Binary operators are grouped by precedence climbing, see parseBinaryExpr;
@@ -193,7 +191,7 @@ func (t *Tree) parseRightTestOperand(prev *NameExpr) (*TestExpr, error) {
 		}
 		return &TestExpr{r}, nil
 	default:
-		return nil, fmt.Errorf(`Expected name or function, got "%v"`, right)
+		return nil, newExpectedError(right.Start(), "name or function")
 	}
 }
 
